@@ -24,7 +24,7 @@ import beacon
 
 PID = "C03"
 CLASSES = {"header": 0, "proposer_signature": 0, "randao": 0, "attestation": 0, "attester_slashing": 0, "proposer_slashing": 0,
-           "deposit": 0, "exit": 0, "limits": 0, "sync_aggregate": 1, "payload": 2, "withdrawals": 3, "bls_change": 3, "blobs": 4}
+           "deposit": 0, "exit": 0, "limits": 0, "indexed_attestation_shape": 0, "sync_aggregate": 1, "payload": 2, "withdrawals": 3, "bls_change": 3, "blobs": 4}
 FORKS = ["phase0", "altair", "bellatrix", "capella", "deneb"]
 _MARK = re.compile(r'<<\s*"(MISMATCH|CONTROL|UNJUDGED|MODELREJECT)",\s*(\d+),\s*"(\w+)"\s*>>')
 
